@@ -400,9 +400,19 @@ fn eval_axis_node_test(
         },
     };
 
+    // a name test selects nodes of the principal node type of the axis only: attributes on the attribute axis, namespace
+    // nodes (which report NodeType::Attribute) on the namespace axis, elements on every other axis
+    let principal = match axis {
+        expr::AxisSpecifier::Abbreviated(v) if v.as_str() == "@" => dom::NodeType::Attribute,
+        expr::AxisSpecifier::Name(expr::AxisName::Attribute | expr::AxisName::Namespace) => {
+            dom::NodeType::Attribute
+        }
+        _ => dom::NodeType::Element,
+    };
+
     let mut tested = vec![];
     for node in nodes {
-        if eval_node_test(test, node.clone(), context)? {
+        if eval_node_test(test, principal.clone(), node.clone(), context)? {
             tested.push(node);
         }
     }
@@ -451,16 +461,16 @@ fn eval_axis_node_test(
 
 fn eval_node_test(
     test: &expr::NodeTest,
+    principal: dom::NodeType,
     node: dom::XmlNode,
     context: &mut model::Context,
 ) -> error::Result<bool> {
     match test {
+        expr::NodeTest::Name(_) if node.node_type() != principal => Ok(false),
         expr::NodeTest::Name(name) => match name {
-            // `*` selects the nodes of the principal node type of the axis: elements, on the attribute and
-            // namespace axes attributes and namespace nodes (which report NodeType::Attribute) -- never text,
-            // comments or processing instructions
-            expr::NameTest::All => Ok(node.node_type() == dom::NodeType::Element
-                || node.node_type() == dom::NodeType::Attribute),
+            // `*` selects the nodes of the principal node type of the axis -- never text, comments or
+            // processing instructions
+            expr::NameTest::All => Ok(true),
             expr::NameTest::Namespace(prefix) => {
                 let uri_a = context
                     .get_ns_uri(Some(prefix))
